@@ -77,6 +77,7 @@ type value struct {
 	shape    *m.Type // for (nested) empty literals: type with None at the untyped positions
 	pre      []string
 	kind     string
+	wrap     string // loop header the use of the value is placed in (the value is its loop variable)
 }
 
 func basicLit(t *m.Type, alt bool) string {
@@ -309,6 +310,11 @@ func assignCells(depth int, emit func(Case)) {
 					emitCell(ctx, T, v, emit)
 				}
 			}
+			for _, v := range loopVars(S) {
+				for _, ctx := range loopContexts {
+					emitCell(ctx, T, v, emit)
+				}
+			}
 		}
 		for _, v := range empties {
 			for _, ctx := range assignContexts {
@@ -318,7 +324,52 @@ func assignCells(depth int, emit func(Case)) {
 	}
 }
 
+// loop variables are variables, whatever is ranged over
+func loopVars(t *m.Type) []value {
+	out := []value{{src: "s", ty: t, pre: []string{"sa:[]" + t.String(), "sa = sa + sa"}, wrap: "for s := range sa", kind: "loop-var:array-variable"}}
+	if t.K != m.Any {
+		out = append(out, value{src: "s", ty: t, wrap: "for s := range [" + lit(t) + "]", kind: "loop-var:array-literal"})
+	}
+	switch t.K {
+	case m.Str:
+		out = append(out, value{src: "s", ty: t, wrap: "for s := range {a:1}", kind: "loop-var:map-literal"},
+			value{src: "s", ty: t, wrap: "for s := range \"ab\"", kind: "loop-var:string-literal"})
+	case m.Num:
+		out = append(out, value{src: "s", ty: t, wrap: "for s := range 1", kind: "loop-var:num"})
+	}
+	return out
+}
+
+var loopContexts = []string{"assign", "element-assign", "field-assign"}
+
+func emitLoopCell(ctx string, T *m.Type, v value, emit func(Case)) {
+	ok, why := isAccepted(T, v)
+	v2 := v
+	v2.pre = nil
+	if ctx != "assign" && ctx != "element-assign" && ctx != "field-assign" {
+		ctx = "assign" // the other contexts define a function, which cannot stand inside a loop
+	}
+	body, typeof := cellProgram(ctx, T, v2)
+	if v.kind == "loop-var:array-variable" {
+		typeof = "" // the array is empty, the body does not run
+	}
+	var sb strings.Builder
+	for _, l := range v.pre {
+		sb.WriteString(l + "\n")
+	}
+	sb.WriteString(v.wrap + "\n")
+	for _, l := range strings.Split(strings.TrimSuffix(body, "\n"), "\n") {
+		sb.WriteString("    " + l + "\n")
+	}
+	sb.WriteString("end\n")
+	emit(Case{Src: sb.String(), Cell: fmt.Sprintf("%s: %s <- %s %s (%s)", ctx, T, v.kind, v.ty, v.wrap), Accept: ok, Typeof: typeof, Why: why})
+}
+
 func emitCell(ctx string, T *m.Type, v value, emit func(Case)) {
+	if v.wrap != "" {
+		emitLoopCell(ctx, T, v, emit)
+		return
+	}
 	ok, why := isAccepted(T, v)
 	src, typeof := cellProgram(ctx, T, v)
 	src += useAll(v.pre)
@@ -621,6 +672,7 @@ func TestSampled(t *testing.T) {
 			vals = append(vals, constExprs(S)...)
 		}
 		vals = append(vals, empties...)
+		vals = append(vals, loopVars(S)...)
 		v := vals[rapid.IntRange(0, len(vals)-1).Draw(t, "value")]
 		emitCell(assignContexts[rapid.IntRange(0, len(assignContexts)-1).Draw(t, "ctx")], T, v, emit)
 	})
